@@ -216,23 +216,42 @@ Definition bfs_init : bstate := mkB [(start, 0)] [] [].
 Definition bfs : sresult := bfs_loop (S (S (g_n g))) bfs_init.
 
 (* ---- AStarSearch.plan_on ----
-   h = heuristic cost (= - heuristic_value); tbs k = tie_break of the k-th push
+   h = heuristic cost (= - heuristic_value), None = +inf; tbs k = tie_break of the k-th push
    (lifo: -(k+1), fifo: k+1, random: the recorded rnd.random()). *)
-Variable h : nat -> Z.
+Variable h : nat -> option Z.
 Variable tbs : nat -> Z.
 
-Definition node := (Z * Z * Z * nat)%type.    (* heuristic_cost, tie_break, cost_from_start, state *)
-Definition nd_f (x : node) : Z := fst (fst (fst x)).
+(* keys in Z + {+inf}: None = float('inf') *)
+Definition oplus (c : Z) (a : option Z) : option Z := match a with Some x => Some (c + x) | None => None end.
+Definition olt (a b : option Z) : bool :=
+  match a, b with
+  | Some x, Some y => x <? y
+  | Some _, None => true
+  | None, _ => false
+  end.
+Definition oeqb (a b : option Z) : bool :=
+  match a, b with
+  | Some x, Some y => x =? y
+  | None, None => true
+  | _, _ => false
+  end.
+
+Definition node := (option Z * Z * Z * nat)%type.    (* heuristic_cost, tie_break, cost_from_start, state *)
+Definition nd_f (x : node) : option Z := fst (fst (fst x)).
 Definition nd_tb (x : node) : Z := snd (fst (fst x)).
 Definition nd_g (x : node) : Z := snd (fst x).
 Definition nd_s (x : node) : nat := snd x.
 
 (* tuple comparison, as heapq does on the NamedTuple *)
 Definition node_leb (x y : node) : bool :=
-  if nd_f x <? nd_f y then true else if nd_f y <? nd_f x then false else
+  if olt (nd_f x) (nd_f y) then true else if olt (nd_f y) (nd_f x) then false else
   if nd_tb x <? nd_tb y then true else if nd_tb y <? nd_tb x then false else
   if nd_g x <? nd_g y then true else if nd_g y <? nd_g x then false else
   (nd_s x <=? nd_s y)%nat.
+
+(* `best_in_queue_by_state[s] is node` (distinct pushes never carry equal tuples: same state => different cost) *)
+Definition node_eqb (x y : node) : bool :=
+  oeqb (nd_f x) (nd_f y) && (nd_tb x =? nd_tb y) && (nd_g x =? nd_g y) && (nd_s x =? nd_s y)%nat.
 
 (* heappop: a least element leaves the queue *)
 Fixpoint pop_min (q : list node) : option (node * list node) :=
@@ -253,7 +272,7 @@ Record astate := mkA {
   a_pushes : nat
 }.
 
-Definition a_push (st : astate) (f gc : Z) (t : nat) : astate :=
+Definition a_push (st : astate) (f : option Z) (gc : Z) (t : nat) : astate :=
   let nd : node := (f, tbs (a_pushes st), gc, t) in
   mkA (nd :: a_queue st) ((t, nd) :: a_best st) (a_visited st) (a_came st) (S (a_pushes st)).
 
@@ -266,7 +285,7 @@ Definition a_relax (s : nat) (gs : Z) (st : astate) (e : edge) : astate :=
               | None => false
               end in
   if skip then st else
-  let st' := a_push st (g' + h t) g' t in
+  let st' := a_push st (oplus g' (h t)) g' t in
   mkA (a_queue st') (a_best st') (a_visited st') ((t, (s, e_act e)) :: a_came st') (a_pushes st').
 
 Definition a_expand (s : nat) (gs : Z) (st : astate) (es : list edge) : astate :=
@@ -282,6 +301,13 @@ Fixpoint astar_loop (fuel : nat) (st : astate) : sresult :=
           let s := nd_s nd in
           if memn s (map fst (a_visited st)) then
             astar_loop fuel' (mkA q' (a_best st) (a_visited st) (a_came st) (a_pushes st))
+          else if negb (match lookup s (a_best st) with Some b => node_eqb b nd | None => false end) then
+            (* a cheaper node of s is still queued: stale; only possible when the keys tie at +inf
+               (the code asserts that; a finite key here is an AssertionError = Broken) *)
+            match nd_f nd with
+            | None => astar_loop fuel' (mkA q' (a_best st) (a_visited st) (a_came st) (a_pushes st))
+            | Some _ => Broken
+            end
           else
             let best' := del s (a_best st) in
             if g_goal g s then
@@ -295,7 +321,7 @@ Fixpoint astar_loop (fuel : nat) (st : astate) : sresult :=
       end
   end.
 
-Definition astar_init : astate := a_push (mkA [] [] [] [] O) (0 + h start) 0 start.
+Definition astar_init : astate := a_push (mkA [] [] [] [] O) (oplus 0 (h start)) 0 start.
 
 (* every push is popped once; at most one push per edge plus the initial one *)
 Definition total_deg : nat := fold_right (fun s acc => (length (g_succ g s) + acc)%nat) O (seq 0 (g_n g)).
@@ -315,30 +341,42 @@ Definition ord_of (orders : list (list nat)) (k : nat) (es : list edge) : list e
 Definition tbs_of (l : list Z) (k : nat) : Z := nth k l 0.
 Definition tbs_lifo (k : nat) : Z := - Z.of_nat (S k).
 Definition tbs_fifo (k : nat) : Z := Z.of_nat (S k).
-Definition h_of (l : list Z) (s : nat) : Z := nth s l 0.
+Definition h_of (l : list (option Z)) (s : nat) : option Z := nth s l (Some 0).   (* with +inf entries *)
+Definition hz_of (l : list Z) (s : nat) : Z := nth s l 0.                         (* finite heuristics *)
 
-(* consistent heuristic (in cost convention): h u <= c + h v along every edge, h = 0 on goals *)
-Definition consistentb (g : graph) (h : nat -> Z) : bool :=
-  forallb (fun s => (if g_goal g s then h s =? 0 else true) &&
-                    forallb (fun e => h s <=? e_cost e + h (e_dst e)) (g_succ g s))
+(* consistent heuristic (cost convention, values in Z + {+inf}): h u <= c + h v along every edge, h = 0 on goals *)
+Definition oleb (a b : option Z) : bool :=
+  match a, b with
+  | Some x, Some y => x <=? y
+  | _, None => true
+  | None, Some _ => false
+  end.
+Definition consistentb (g : graph) (h : nat -> option Z) : bool :=
+  forallb (fun s => (if g_goal g s then oeqb (h s) (Some 0) else true) &&
+                    forallb (fun e => oleb (h s) (oplus (e_cost e) (h (e_dst e)))) (g_succ g s))
           (seq 0 (g_n g)).
 
 (* ------------------------------------------------------------------------- *)
 (* DeterministicShortestPathProblem.from_mdp: how the single outcome of an   *)
 (* initial / next-state distribution is read:  sup = dist.support;           *)
-(* assert len(sup) == 1; return sup[0].                                      *)
+(* assert len(sup) == 1; return next(iter(sup)).                             *)
 (* DeterministicDistribution.support is a tuple, UniformDistribution.support *)
-(* a list, DictDistribution.support a dict keys view (len works, [0] raises  *)
-(* TypeError).  None = the read raises.                                      *)
+(* a list, DictDistribution.support a dict keys view: all three have len and *)
+(* are iterable (only tuple and list are subscriptable).  None = the read    *)
+(* raises.                                                                   *)
 (* ------------------------------------------------------------------------- *)
 Inductive support_repr := SupTuple (l : list nat) | SupList (l : list nat) | SupKeys (l : list nat).
 Definition sup_len (s : support_repr) : nat :=
   match s with SupTuple l | SupList l | SupKeys l => length l end.
-Definition sup_index0 (s : support_repr) : option nat :=
+Definition sup_iter (s : support_repr) : list nat :=
+  match s with SupTuple l | SupList l | SupKeys l => l end.
+Definition sup_index0 (s : support_repr) : option nat :=          (* s[0]: what the code did before 9090d34 *)
   match s with SupTuple l | SupList l => hd_error l | SupKeys _ => None end.
 Inductive dist_repr := DDet (x : nat) | DDict (x : nat) | DUnif (x : nat).
 Definition dist_support (d : dist_repr) : support_repr :=
   match d with DDet x => SupTuple [x] | DDict x => SupKeys [x] | DUnif x => SupList [x] end.
 Definition dist_outcome (d : dist_repr) : nat := match d with DDet x | DDict x | DUnif x => x end.
 Definition from_mdp_read (d : dist_repr) : option nat :=
+  let s := dist_support d in if (sup_len s =? 1)%nat then hd_error (sup_iter s) else None.
+Definition from_mdp_read_index0 (d : dist_repr) : option nat :=   (* historical *)
   let s := dist_support d in if (sup_len s =? 1)%nat then sup_index0 s else None.
